@@ -85,6 +85,51 @@ const maxIter = 10000
 // size buf until EOF. OnIntermediate / OnContinuation record what they are handed.
 func ReaderLoop(buf int) Driver { return readerLoop(buf, -1, -1) }
 
+// ReaderCopy consumes every message with io.Copy into a bytes.Buffer (which goes through the
+// reader's WriteTo or the buffer's ReadFrom, not through a Read loop of the caller's).
+func ReaderCopy() Driver {
+	return Driver{
+		Name:   "Reader/io.Copy",
+		Expect: identity,
+		Run: func(src io.Reader, side streams.Side, cfg Cfg, res *Result) {
+			st := State(side)
+			if cfg.Extended {
+				st |= ws.StateExtended
+			}
+			rd := &wsutil.Reader{Source: src, State: st, MaxFrameSize: cfg.MaxFrameSize, CheckUTF8: cfg.CheckUTF8, Extensions: cfg.Extensions, SkipHeaderCheck: cfg.SkipHeaderCheck}
+			res.Reader = rd
+			rd.OnIntermediate = func(h ws.Header, r io.Reader) error {
+				var b bytes.Buffer
+				_, err := io.Copy(&b, r)
+				res.Events = append(res.Events, Event{Kind: "ctl", Op: byte(h.OpCode), Payload: append([]byte{}, b.Bytes()...)})
+				return err
+			}
+			for it := 0; it < maxIter; it++ {
+				h, err := rd.NextFrame()
+				if err != nil {
+					res.Err = err
+					return
+				}
+				var b bytes.Buffer
+				_, err = io.Copy(&b, rd)
+				res.Partial = b.Bytes()
+				if err != nil {
+					res.Err = err
+					return
+				}
+				kind := "msg"
+				if h.OpCode.IsControl() {
+					kind = "ctl"
+				}
+				res.Events = append(res.Events, Event{Kind: kind, Op: byte(h.OpCode), Payload: append([]byte{}, b.Bytes()...)})
+				res.Partial = nil
+				res.Calls++
+			}
+			res.Err = errors.New("driver: loop does not terminate")
+		},
+	}
+}
+
 // ReaderAlternatingBuffers: like ReaderLoop, but the caller's buffer is 64 bytes for the
 // first Read of a message and 1 byte for all later ones (a count carried over from one Read
 // to a later one would not fit that buffer).
@@ -582,7 +627,7 @@ func All() []Driver {
 	return []Driver{
 		ReaderLoop(1), ReaderLoop(2), ReaderLoop(7), ReaderLoop(512),
 		WithSkipHeaderCheck(ReaderLoop(7)), WithSkipHeaderCheck(ReaderDiscard(1)),
-		ReaderAlternatingBuffers(), ReaderLazyHandler(0), ReaderLazyHandler(1), ReaderContinuationHandler(1), ReaderContinuationHandler(64),
+		ReaderCopy(), ReaderAlternatingBuffers(), ReaderLazyHandler(0), ReaderLazyHandler(1), ReaderContinuationHandler(1), ReaderContinuationHandler(64),
 		ReaderDiscard(0), ReaderDiscard(1), ReaderDiscardUTF8(1), ReaderDiscardUTF8(2),
 		NextReaderLoop(), ReadMessageLoop(), ReadSideMessageLoop(),
 		ReadDataLoop("Generic"), ReadDataLoop("Data"), ReadDataLoop("Text"), ReadDataLoop("Binary"),
